@@ -513,6 +513,15 @@ def replay(ctx, path):
     core.build_lib("plain")
     d = load_replay(path)
     runner = Runner(ctx, None)
+    try:
+        import sys
+        sys.path.insert(0, os.path.join(core.VERIF, "translator"))
+        import srcfacts
+        runner.facts = srcfacts.GENERATORS["GenXslt"]()[1]
+        xsltref.EMIT["copy-of"] = not runner.facts["copy_of_skips_empty_string"]
+        xsltref.EMIT["value-of-dot"] = not runner.facts["value_of_dot_skips_empty_string"]
+    except Exception:
+        pass
     c = runner.prepare("replay", d.get("kind", "main"), d["sheet"], d["doc"])
     if c is None:
         print("the reference rejects the program")
